@@ -188,7 +188,7 @@ fn check_overlay(ctx: &Ctx, rt: &tokio::runtime::Runtime, label: &str, vpl: &str
 
 pub fn run(ctx: Arc<Ctx>) {
 	ctx.rule(
-		"k in {2,3,4} sources; for every coordinate of a family the subset of sources that hold it - all (2^k)^n assignments (k=4: n=3 in quick); two coordinate families (32-sub-box / 256-block borders at two zooms; sparse-wide level with holes); \
+		"k in {2,3,4} sources; for every coordinate of a family the subset of sources that hold it - all (2^k)^n assignments (k=4: n=3 in quick); two coordinate families (32-sub-box / 256-block borders at two zooms; sparse-wide level with holes); every ordered triple of 16 rectangular coverages of a dense level 3 (4096 overlays); \
 		 compression assignments (3 equal, 6 mixed pairs, 1 mixed triple) rotated over the assignments; sources answer and open with different delays (first slowest); nesting inside filter_zoom; first source behind filter_zoom / filter_bbox stages that empty whole levels of it; the same data as real versatiles/pmtiles/tar/mbtiles files; dense 12x10 patches (three hold patterns) in pairs of real files of all five formats (quick: every 5th pair + versatiles/versatiles, thorough: all 25). \
 		 oracle: first source in list order wins, bytes decode (declared compression) to that source's payload, declared = common compression or uncompressed, coverage contains every returned tile and equals the per-level union of what each source advertises on its own, lookups = streams, absent iff no source has it. non-trivial = assignments where >= 2 sources hold one coordinate",
 	);
@@ -274,6 +274,42 @@ pub fn run(ctx: Arc<Ctx>) {
 		let _ = tier;
 	});
 	ctx.outcome_n("overlay assignments", jobs.len() as u64);
+	// dense sources with rectangular coverages (what real overlays look like: a base map, regional extracts): every
+	// ordered triple of 16 rectangles of level 3 (intervals [0,3], [0,7], [4,7], [2,5] per axis) - holes of every shape
+	// between the members, a whole level of 64 tiles in one sub-box of the overlay
+	{
+		let ivs = [(0u32, 3u32), (0, 7), (4, 7), (2, 5)];
+		let rects: Vec<(u32, u32, u32, u32)> = ivs.iter().flat_map(|x| ivs.iter().map(move |y| (x.0, y.0, x.1, y.1))).collect();
+		let all: Vec<Key> = (0..8u32).flat_map(|x| (0..8u32).map(move |y| (3u8, x, y))).collect();
+		let n = rects.len();
+		let (rr, ar) = (&rects, &all);
+		par_for(n * n * n, |ti| {
+			let tri = [ti % n, ti / n % n, ti / n / n];
+			let rt = tokio::runtime::Builder::new_current_thread().build().unwrap();
+			let comps: Vec<u8> = vec![(ti % 3) as u8, (ti / 3 % 3) as u8, (ti / 9 % 3) as u8];
+			let inside = |j: usize, c: &Key| -> bool {
+				let r = rr[tri[j]];
+				c.1 >= r.0 && c.1 <= r.2 && c.2 >= r.1 && c.2 <= r.3
+			};
+			let sources: Vec<MemSource> = (0..3).map(|j| MemSource::new(&format!("s{j}"), ar.iter().filter(|c| inside(j, c)).map(|c| (*c, codec::encode_with(comps[j], &payload(j, *c)))).collect(), TileFormat::BIN, ct::comp_from_id(comps[j])).with_yields((2 - j) as u8)).collect();
+			let assign: Vec<u32> = ar.iter().map(|c| (0..3).map(|j| (inside(j, c) as u32) << j).sum()).collect();
+			let exprs: Vec<String> = (0..3).map(|j| format!("from_container filename=\"mem:{j}\"")).collect();
+			let vpl = format!("from_overlayed [ {} ]", exprs.join(", "));
+			let case = json!({"family": "rectangular coverages at level 3", "rectangles": tri.iter().map(|i| rr[*i]).collect::<Vec<_>>(), "compressions": comps, "vpl": vpl});
+			let fac = pipeline::factory(sources, &wpath);
+			ctxr.transition(1);
+			let pyramids: Vec<TileBBoxPyramid> = exprs.iter().filter_map(|e| pipeline::build_op(&rt, &fac, e).ok()).map(|o| o.get_parameters().bbox_pyramid.clone()).collect();
+			match pipeline::build_op(&rt, &fac, &vpl) {
+				Err(e) => ctxr.violation(&format!("overlay cannot be built: {}", super::c01::norm_msg(&e)), &format!("{vpl}: {e}"), case),
+				Ok(op) => {
+					check_overlay(ctxr, &rt, &format!("rectangular coverages {:?} comps {comps:?}", tri.iter().map(|i| rr[*i]).collect::<Vec<_>>()), &vpl, AnySrc::Op(op), 3, ar, &assign, &comps, None, &case, if pyramids.len() == 3 { &pyramids } else { &[] });
+					ctxr.trace(1);
+				}
+			}
+			ctxr.nontrivial(fnv_str(&format!("rect{ti}")));
+		});
+		ctx.outcome_n("overlays of three rectangular coverages", (n * n * n) as u64);
+	}
 	// real container files as sources (thorough; quick: one configuration)
 	let rt = crate::memsource::runtime(2);
 	let f = &fams[0];
